@@ -147,6 +147,12 @@ void runScenario(const QJsonObject &scn)
                 }
                 continue;
             }
+            if (op == "install") {
+                // configure() installs the message handler after it has made the logger asynchronous
+                if (useLogger)
+                    logger->installMessageHandler();
+                continue;
+            }
             if (op == "openGate") {
                 QJsonObject o;
                 o["e"] = "GateOpen";
